@@ -630,6 +630,21 @@ package types
 //@   assumes listenersOK(e)
 //@   modifies *
 //@   ensures [C20.emit.remove.absent] !old(mhas(e.evtListeners, evt)) ==> !result && calls((*Slice).RangeAndSplice) == 0
+// Emit calls the listeners of a private snapshot of the registrations, taken once under the list's lock when the call
+// starts: a listener that removes itself or others meanwhile (every Once listener does) cannot shift the list under the
+// loop, so no listener is skipped and none runs twice
+//@ func (*emmiter).Emit(evt, data)
+//@   props C20, C02
+//@   requires e != nil
+//@   assumes listenersOK(e)
+//@   dyncall fn noeffect
+//@   modifies *
+//@   loop 1 invariant calls(fn) <= $i
+//@   ensures [C20.emit.snapshot,C02.emit.snapshot] calls((*Slice).DoRead) == 0 && calls((*Slice).DoWrite) == 0 && calls((*Slice).All) <= 1
+//@   ensures [C20.emit.absent] !old(mhas(e.evtListeners, evt)) ==> calls((*Slice).All) == 0 && calls(fn) == 0
+//@   callsite fn#1
+//@     assert [C20.emit.order,C02.emit.order] event == ret((*Slice).All, 1)[$i] && event != nil
+
 //@ func (*emmiter).AddListener(evt, listeners)
 //@   props C20
 //@   requires e != nil
